@@ -23,6 +23,8 @@ pub enum Op {
     Cp(String, String),
     Mv(String, String),
     Rm(String, bool),
+    /// `rm [-r] p1 p2 ...`: every named path goes, in order
+    RmMany(Vec<String>, bool),
     Rmdir(String),
     Exists(String),
     IsFile(String),
@@ -213,6 +215,7 @@ fn paths_of(op: &Op) -> Vec<String> {
     match op {
         Op::Write(p, _) | Op::Append(p, _) | Op::Read(p) | Op::Touch(p) | Op::Rm(p, _) | Op::Exists(p) | Op::IsFile(p) | Op::IsDir(p) | Op::Size(p) | Op::Mkdir(p) | Op::Rmdir(p) | Op::ReadBin(p) | Op::WriteBin(p, _) => vec![p.clone()],
         Op::Cp(a, b) | Op::Mv(a, b) => vec![a.clone(), b.clone()],
+        Op::RmMany(ps, _) => ps.clone(),
         _ => vec![],
     }
 }
@@ -234,6 +237,7 @@ fn with_paths(op: &Op, ps: &[String]) -> Op {
         Op::WriteBin(_, x) => Op::WriteBin(ps[0].clone(), x.clone()),
         Op::Cp(_, _) => Op::Cp(ps[0].clone(), ps[1].clone()),
         Op::Mv(_, _) => Op::Mv(ps[0].clone(), ps[1].clone()),
+        Op::RmMany(_, r) => Op::RmMany(ps.to_vec(), *r),
         other => other.clone(),
     }
 }
@@ -254,6 +258,7 @@ fn command_of(op: &Op) -> (&'static str, Vec<String>) {
         Op::ReadBin(p) => ("read_binary_file", vec![p.clone()]),
         Op::Cp(a, b) => ("cp", vec![a.clone(), b.clone()]),
         Op::Mv(a, b) => ("mv", vec![a.clone(), b.clone()]),
+        Op::RmMany(ps, r) => ("rm", if *r { std::iter::once(s("-r")).chain(ps.iter().cloned()).collect() } else { ps.clone() }),
         _ => ("noop", vec![]),
     }
 }
@@ -311,7 +316,11 @@ fn run_case(case: &Case) -> Verdict {
         }
         let aliased = canonical != spelled;
         let canon_op = with_paths(op, &canonical);
-        let op = if aliased {
+        // (a multi-path rm changes the tree between its paths: a spelling through a directory that an earlier path
+        // removes would no longer resolve; such lists are given in canonical form)
+        let op = if aliased && matches!(op, Op::RmMany(_, _)) {
+            &canon_op
+        } else if aliased {
             for (j, (c, sp)) in canonical.iter().zip(spelled.iter()).enumerate() {
                 if c != sp {
                     let occurrence = canonical[..j].iter().filter(|x| *x == c).count();
@@ -579,6 +588,47 @@ fn run_case(case: &Case) -> Verdict {
                     }
                 }
             }
+            Op::RmMany(ps, rec) => {
+                if ps.iter().any(|p| p == ROOT) {
+                    // the run directory itself stays
+                    continue;
+                }
+                let (_, args) = command_of(op);
+                // walk the list on a copy of the model: does every step succeed, does any name a missing path?
+                let mut t2 = t.clone();
+                let mut fails = false;
+                let mut missing = false;
+                for p in ps {
+                    if p == ROOT || too_long(p) {
+                        fails = true;
+                        break;
+                    }
+                    match t2.get(p).cloned() {
+                        _ if blocked(&t2, p) => missing = true,
+                        None => missing = true,
+                        Some(Node::File(_)) => {
+                            t2.remove(p);
+                        }
+                        Some(Node::Dir) => {
+                            if has_children(&t2, p) && !*rec {
+                                fails = true;
+                                break;
+                            }
+                            remove_subtree(&mut t2, p);
+                        }
+                    }
+                }
+                if fails {
+                    // stops at the failing path with the earlier ones gone: what a failing multi-path rm leaves is
+                    // not settled by the statement
+                    world.op("rm", &args, &Want::Any, &args);
+                    resync_all = true;
+                } else {
+                    world.op("rm", &args, &if missing { Want::Any } else { Want::True }, &args);
+                    sim::with_core(|c| c.probe(if missing { "rm-many-with-a-missing-path" } else { "rm-many" }));
+                    t = t2;
+                }
+            }
             Op::Rmdir(p) => match t.get(p).cloned() {
                 _ if blocked(&t, p) => {
                     world.op("rmdir", &[p.clone()], &Want::Any, &[p.clone()]);
@@ -793,6 +843,7 @@ fn gen_op_raw(rng: &mut Rng) -> Op {
         16 | 17 => Op::Mkdir(if rng.chance(1, 5) { gen_any(rng) } else { gen_dir(rng) }),
         18..=21 => Op::Cp(if rng.chance(1, 12) { gen_any(rng) } else { gen_file(rng) }, if rng.chance(1, 8) { gen_any(rng) } else { gen_file(rng) }),
         22..=25 => Op::Mv(if rng.chance(1, 12) { gen_any(rng) } else { gen_file(rng) }, if rng.chance(1, 3) { gen_dir(rng) } else if rng.chance(1, 10) { gen_any(rng) } else { gen_file(rng) }),
+        26..=28 if rng.chance(1, 6) => Op::RmMany((0..2 + rng.usize(3)).map(|_| gen_any(rng)).collect(), rng.chance(1, 2)),
         26..=28 => Op::Rm(gen_any(rng), rng.chance(1, 3)),
         29 => Op::Rmdir(gen_any(rng)),
         30 => Op::Exists(gen_any(rng)),
@@ -840,6 +891,14 @@ impl Prop for C18 {
             let dir = gen_dir(rng);
             let mut pre: Vec<Op> = (0..17 + rng.usize(8)).map(|k| Op::Write(format!("{}/n{}.txt", dir, k), format!("c{}", k))).collect();
             pre.push(Op::Write(format!("{}/big.dat", dir), "0123456789abcdef".repeat(4200)));
+            // multi-byte characters at every offset around the 64 KiB and 128 KiB marks (a reader working in blocks
+            // must not cut one in two): an ASCII pad of 0..3 bytes, then two-, three- and four-byte characters
+            let pad = "x".repeat(rng.usize(4));
+            let wide = format!("{}{}", pad, "\u{e9}\u{6f22}\u{1f600}\u{11b}".repeat(13_000));
+            pre.push(Op::Write(format!("{}/wide.txt", dir), wide.clone()));
+            pre.push(Op::Read(format!("{}/wide.txt", dir)));
+            pre.push(Op::Append(format!("{}/wide.txt", dir), "\u{e9}".to_string()));
+            pre.push(Op::Read(format!("{}/wide.txt", dir)));
             pre.push(Op::Glob(format!("{}/*", dir)));
             pre.push(Op::Glob(format!("{}/**/*.txt", ROOT)));
             pre.push(Op::Cp(format!("{}/big.dat", dir), format!("{}/copy/big2.dat", dir)));
